@@ -1198,6 +1198,52 @@ func eachManyItems(emit func(wireCase)) {
 		}
 		emit(wireCase{Input: q, Kind: fmt.Sprintf("many-items:questions-%d", 3*n), Valid: true, Huge: true})
 	}
+	// a long chain of backward compression pointers (each pointing at the one before it), and very
+	// many two-octet names that all enter the chain at its far end: whatever the decoder's answer,
+	// the work per name has to stay bounded
+	for _, hops := range []int{120, 126, 127, 128, 200, 2000, 8000} {
+		for _, shape := range []string{"ns-records", "hip-servers"} {
+			// an opaque record (root owner, TYPE65281) whose RDATA is: a root label, then `hops`
+			// pointers, each pointing at the element before it
+			start := 12 + 1 + 2 + 2 + 4 + 2
+			chain := []byte{0}
+			for i := 0; i < hops; i++ {
+				target := start
+				if i > 0 {
+					target = start + 1 + 2*(i-1)
+				}
+				chain = append(chain, 0xC0|byte(target>>8), byte(target))
+			}
+			last := start + 1 + 2*(hops-1)
+			if last >= 16384 {
+				continue
+			}
+			w := []byte{0, 9, 0x84, 0, 0, 0, 0, 1, 0, 0, 0, 0}
+			w = append(w, 0, 0xff, 0x01, 0, 1, 0, 0, 0, 9)
+			w = append(append(w, u16(len(chain))...), chain...)
+			ptr := []byte{0xC0 | byte(last>>8), byte(last)}
+			room := 65000 - len(w)
+			if shape == "ns-records" {
+				n := room / 14
+				binary.BigEndian.PutUint16(w[6:], uint16(n+1))
+				for i := 0; i < n; i++ {
+					w = append(w, ptr...)
+					w = append(w, 0, 2, 0, 1, 0, 0, 0, 9, 0, 2)
+					w = append(w, ptr...)
+				}
+			} else {
+				n := (room - 30) / 2
+				rd := []byte{1, 1, 0, 1, 7, 8}
+				for i := 0; i < n; i++ {
+					rd = append(rd, ptr...)
+				}
+				binary.BigEndian.PutUint16(w[6:], 2)
+				w = append(w, 1, 'h', 0, 0, 55, 0, 1, 0, 0, 0, 9)
+				w = append(append(w, u16(len(rd))...), rd...)
+			}
+			emit(wireCase{Input: w, Kind: fmt.Sprintf("many-items:pointer-chain-%d-%s", hops, shape), Valid: true, Huge: true})
+		}
+	}
 	// type bitmaps: 64 windows, each with its full 32 octets (16384 types). Not all 256: printing a
 	// type bitmap is quadratic in the number of types (NSEC.String() builds its text by repeated
 	// concatenation; 65536 types from an 8.7 KB message take 7 s to print) - observed, and outside
